@@ -228,6 +228,7 @@ def c03(tier, replay):
     totals = validate(run, "C03", "sessions", logs, scripts=sessions, binary=binary)
     if totals.get("bestmoves", 0) < 20:
         raise ToolError("coverage hole: fewer than 20 bestmove lines observed")
+    thread_events(run, "C03", tier)
     model_walleye(run, tier)
     run.cov["rule"] = ("sessions against the real binary (guard off): every command sequence of Walleye.tla's environment alphabet {position, go with zero "
                        "allowance, go with a clock, isready, ignored line} up to length 3 (quick: all of length <= 2 and a sample of length 3), runs of 2-6 "
@@ -561,6 +562,45 @@ def position_dumps(run, pid, tier):
     if totals.get("posdumps", 0) < 10:
         raise ToolError("coverage hole: fewer than 10 position dumps from the instrumented binary")
     run.cov["position_dumps_from_real_loop"] = totals.get("posdumps", 0)
+
+
+def thread_events(run, pid, tier):
+    """The instrumented binary writes one event per linearization point of Walleye.tla's actions (go_start, srch_send,
+    io_recv, io_exit) under a global sequence number; TraceUci replays them against the model's channel / best / root."""
+    rng = random.Random(vcommon.seed() * 31 + 33)
+    h = vcommon.build_harness()
+    binary = vcommon.build_binary(True)
+    q = tier == "quick"
+    live, _ = pool(h, vcommon.seed() + 7, 8, 4, 3, 8)
+    d = R.trace_dir(pid + "-hooks")
+    sessions, traces = [], []
+    for i in range(16 if q else 150):
+        steps = [{"do": "send", "line": rng.choice(live)}]
+        for _ in range(rng.randint(2, 5)):
+            steps.append({"do": "go", "line": rng.choice(GO_ZERO + GO_SMALL + ["go wtime %d btime %d movestogo 1" % ((rng.randint(101, 160),) * 2)])})
+        sessions.append(steps)
+        traces.append(os.path.join(d, "hook%03d.ndjson" % i))
+    plan(h, sessions)
+    logs = run_sessions(binary, sessions, 8, traces)
+    merged = []
+    for evs, tp in zip(logs, traces):
+        hk = []
+        if os.path.exists(tp):
+            for l in open(tp):
+                e = json.loads(l)
+                if e["ev"] in ("go_start", "srch_send", "io_recv", "io_exit"):
+                    b = e["board"]
+                    hk.append({"ev": "hk", "h": e["ev"], "seq": e["seq"], "expired": e.get("expired", False),
+                               "board": {"r": b["r"], "stm": b["stm"], "cr": b["cr"], "ep": b["ep"], "d": b["d"]}})
+        hk.sort(key=lambda x: x["seq"])
+        # the process events form their own totally ordered sub-trace (global sequence number); they are appended
+        # after the driver's view of the same session
+        merged.append(evs + hk)
+    shutil.rmtree(d, ignore_errors=True)
+    totals = validate(run, pid, "hooks", merged, scripts=sessions, binary=None)
+    if totals.get("hook_recvs", 0) < 10:
+        raise ToolError("coverage hole: fewer than 10 receive events from the instrumented binary")
+    run.cov["thread_events_validated"] = totals.get("hook_events", 0)
 
 
 def timed_info_lines(run, pid, tier):
